@@ -56,7 +56,7 @@ def cases(tier, r):
     yield 'tagops', {'p': 'argstore', 'sig': sig, 'args': args, 'kwargs': kwargs, 'ops': ops, 'ann': ann}
   for _ in range(600 if tier == 'quick' else 10000):
     yield 'dag', {'graph': True, 'seed': r.getrandbits(48), 'size': r.choice([4, 7, 11]),
-                  'tag': r.randrange(len(targets.TAGS)),
+                  'tag': r.randrange(len(targets.TAGS) + 1),      # the last one = fdl.Tag itself (every tag)
                   'op': r.choice(['set_tagged', 'replace', 'replace_held', 'list', 'survive', 'tagged_value', 'tagged_value', 'late_annotation'])}
 
 
@@ -147,18 +147,21 @@ def execute(case):
     real, cfg = argstore.run_real(case, with_build=False)
     return real, {k: case[k] for k in ('p', 'sig', 'args', 'kwargs', 'ops', 'ann')}
   root = make_root(case)
-  tag = targets.TAGS[case['tag']]
-  obs = {'op': case['op']}
   op = case['op']
+  root_tag = case['tag'] >= len(targets.TAGS) and op in ('set_tagged', 'replace', 'replace_held', 'list')
+  tag = fdl.Tag if root_tag else targets.TAGS[case['tag'] % len(targets.TAGS)]
+  tno = lambda t: len(targets.TAGS) if t is fdl.Tag else targets.tag_no(t)
+  obs = {'op': case['op']}
   req = None
   try:
     if op in ('set_tagged', 'replace', 'list', 'replace_held'):
       req, enc = graphs.encode(root)
       name_of = graphs.unique_fn_names(enc, req)
       nodes0 = C15.reachable_buildables(root)
-      req.update({'p': 'graph', 'q': [], 'tag': targets.tag_no(tag), 'value': {'a': 'NEW1'},
+      req.update({'p': 'graph', 'q': [], 'tag': tno(tag), 'value': {'a': 'NEW1'},
                   'tag_sub': [[targets.tag_no(a), targets.tag_no(b)] for a in targets.TAGS
-                              for b in targets.TAGS if issubclass(a, b)]})
+                              for b in targets.TAGS if issubclass(a, b)] +
+                             [[i, len(targets.TAGS)] for i in range(len(targets.TAGS) + 1)]})
     if op == 'set_tagged':
       before = snapshot(root)
       v = Tok(7777)
